@@ -72,7 +72,16 @@ def run(job, root):
                     break
                 op = ops[i]
             else:
-                op = h.gen_op(rng, state)
+                try:
+                    op = h.gen_op(rng, state)
+                except (Violation, HarnessError):
+                    raise
+                except Exception as e:
+                    # a bug in the GENERATOR ends the schedule early; everything
+                    # executed so far was judged normally, so this is reported
+                    # (evidence: generator_errors) but is not a harness failure
+                    out['generator_error'] = '%s: %s' % (type(e).__name__, e)
+                    break
                 if op is None:
                     break
                 op = jsonable(op)
